@@ -18,7 +18,7 @@ RULE = ("component trees from G3 (depth <= 6, fan-out <= 5, repeated and unknown
         "properties included) are equal to each other; sibling families with identical properties that differ only in their children; non-trivial = tree with >= 3 components; distinct by case hash")
 ASSUMPTIONS = ["components carry upper-case names (as the parser produces) (S12)", "runs under the default (zoneinfo) provider; pytz pickling of custom zones is noted separately (S12)",
                "parameter-only perturbations are not asserted either way (the statement names kind, value and subcomponent multiset)",
-               "the serialise+parse copy is taken of a parsed tree without TEXT escapes (round-trip losses are C01/C02 findings)"]
+               "the serialise+parse copy is taken of the API-built tree and of a parsed tree, both without TEXT escapes (round-trip losses are C01/C02 findings: a copy whose R8 observation differs is not judged here)"]
 SOFT_S = {"quick": 14, "thorough": 300}
 CASE_TIMEOUT_S = 20
 
@@ -242,6 +242,23 @@ def check_case(ctx, case):
         if any(x is y for x, y in zip(preorder(b), nodes)):
             ctx.fail("copy-shares-components", observed=label, expected="independent components")
             return
+    # serialise+parse copy of the API-built tree itself (the generator writes no TEXT escapes here, so C01/C02's round-trip findings stay out)
+    try:
+        c = icalendar.Calendar.from_ical(ser_a)
+    except Exception as e:
+        ctx.count("api-reparse-skipped:" + type(e).__name__)
+        c = None
+    if c is not None:
+        if eq_outcome(a, c) != ("value", True, False) or eq_outcome(c, a) != ("value", True, False):
+            if tree.obs(a) == tree.obs(c):
+                ctx.fail("copy-not-equal", observed=("serialise+parse of the API-built tree", eq_outcome(a, c), eq_outcome(c, a)), expected="equal both ways")
+                return
+            ctx.count("api-reparse-skipped:observation-differs")       # what was lost on the way is C02's subject
+        elif c.to_ical() != ser_a:
+            ctx.fail("copy-serialises-differently", observed="serialise+parse of the API-built tree", expected="identical bytes")
+            return
+        else:
+            ctx.count("api-reparse-copies")
     # serialise+parse copy of a parsed tree
     text = emit(model)
     try:
